@@ -70,6 +70,14 @@ class Helper:
                 if defs and len(defs) == 1 and d > 0:
                     (nid,) = tuple(defs)
                     v = cfg.def_value(nid, e.id)
+                    if isinstance(v, tuple) and v and v[0] == 'unpack' and \
+                            isinstance(v[1], (ast.Tuple, ast.List)) and \
+                            isinstance(v[2], int) and v[2] < len(
+                                v[1].elts) and not any(
+                                isinstance(x, ast.Starred)
+                                for x in v[1].elts):
+                        # ``a, b = (x, y)``: element-wise
+                        v = v[1].elts[v[2]]
                     if isinstance(v, ast.AST):
                         dn = cfg.nodes[nid]
                         return self.subst(v, func, dn, d - 1)
